@@ -39,8 +39,22 @@ func clientLLA(i int) []byte {
 	return []byte{0xfe, 0x80, 0, 0, 0, 0, 0, 0, 0, 0, 0, 0, 0, 0, 1, byte(i)}
 }
 
+// routerAdvertisement is what the LAN router multicasts every few seconds: ProcessPacket wakes the
+// ICMPv6 spoof loops (it replaces the wake-up channel they select on) and learns the router, after
+// which the loops write forged neighbour advertisements.
+func routerAdvertisement(k int) []byte {
+	rmac := []byte{2, 0, 0, 0, 0, byte(0x11 + k)}
+	lla := []byte{0xfe, 0x80, 0, 0, 0, 0, 0, 0, 0, 0, 0, 0, 0, 0, 0, byte(0x11 + k)}
+	ra := frames.RA(64, 0x40, 1800, append(frames.RASLLAOpt(rmac), frames.RAMTUOpt(1500)...))
+	return frames.Ether([]byte{0x33, 0x33, 0, 0, 0, 1}, rmac, 0x86dd, 0, frames.IP6(frames.IP6Opts{PayloadLen: -1, Next: 58, Hop: 255, Src: lla,
+		Dst: []byte{0xff, 2, 0, 0, 0, 0, 0, 0, 0, 0, 0, 0, 0, 0, 0, 1}}, ra))
+}
+
 func frameFor(r *rand.Rand) []byte {
 	i := r.Intn(6)
+	if r.Intn(12) == 0 {
+		return routerAdvertisement(r.Intn(2))
+	}
 	switch r.Intn(6) {
 	case 0:
 		return frames.Ether(bcast, clientMAC(i), 0x0806, 0, frames.ARP(1+r.Intn(2), 6, 4, clientMAC(i), clientIP(r.Intn(6)), bcast, []byte{192, 168, 0, 11}))
@@ -289,9 +303,33 @@ loop:
 		report("table invariant broken at quiescence: " + inv)
 	}
 	guard("printtable", func() { s.PrintTable() })
+	// the packet loop notices a Close late: one more router advertisement is delivered to a closed
+	// handler whose hunt list is not empty (StartHunt, Close, RA)
+	guard("icmp6 hunt", func() {
+		h6.StartHunt(packet.Addr{MAC: net.HardwareAddr(clientMAC(7)), IP: netip.AddrFrom16(*(*[16]byte)(clientLLA(7)))})
+	})
 	guard("close", func() {
 		ah.Close()
 		h6.Close()
+	})
+	raDone := make(chan struct{})
+	go func() {
+		defer close(raDone)
+		guard("router advertisement after Close (StartHunt, Close, RA)", func() {
+			for k := 0; k < 4; k++ { // the handler looks at every fourth advertisement
+				buf := routerAdvertisement(k % 2)
+				if frame, err := s.Parse(buf); err == nil {
+					h6.ProcessPacket(frame)
+				}
+			}
+		})
+	}()
+	select {
+	case <-raDone:
+	case <-time.After(30 * time.Second):
+		report("ProcessPacket(router advertisement) after Close did not return within 30 s")
+	}
+	guard("close session", func() {
 		s.VerifStop() // Close() without the second close of closeChan (sess.New stopped the timers)
 	})
 	time.Sleep(300 * time.Millisecond)
@@ -306,7 +344,7 @@ loop:
 }
 
 func Gen(c *core.Ctx) {
-	c.Res.Rule = "stress rounds: one packet goroutine (Parse→ARP/ICMPv6 handlers→Notify) + purge with virtual time + N API goroutines over 16 API calls + notification drainer, random yields/sleeps, under the Go race detector; per round: recovered panics, watchdog, C05 invariant and PrintTable at quiescence, goroutine count after Close. evaluations = API calls + frames + purges; distinct = rounds × goroutine mixes (measured as distinct (seed, nAPI) pairs)"
+	c.Res.Rule = "stress rounds: one packet goroutine (Parse→ARP/ICMPv6 handlers→Notify; ARP, NS, echo, UDP and router advertisements that wake the ICMPv6 hunt loops) + purge with virtual time + N API goroutines over 16 API calls + notification drainer, random yields/sleeps, under the Go race detector; per round: recovered panics, watchdog, C05 invariant and PrintTable at quiescence, StartHunt→Close→router advertisement, goroutine count after Close. evaluations = API calls + frames + purges; distinct = rounds × goroutine mixes (measured as distinct (seed, nAPI) pairs)"
 	rounds := c.Scale(2, 12)
 	per := time.Duration(c.Scale(2500, 8000)) * time.Millisecond
 	total := stats{}
